@@ -196,6 +196,8 @@ func MapOrder(on bool) {}
 // insertion order; all permutations are explored up to fullUpTo entries
 // (identity, reversal and rotations above); with sticky a map object keeps the
 // order drawn for it as long as its size is unchanged. Zeroes = defaults (2, 3).
+// fullUpTo < 0: one perturbation per path (identity, reversal or rotation by one)
+// applied to every map range.
 func MapOrderOpts(minLen, fullUpTo int, sticky bool) {}
 
 // Observe records values for the differential (engine vs native) check.
